@@ -108,7 +108,7 @@ def main():
             if "rules" in job:
                 one = {"kind": "multi", "by_rule": {}}
                 for rn in job["rules"]:
-                    o = run_one(P, src, rule=rn)
+                    o = run_one(P, src, rule=rn, call_invalid=job.get("call_invalid", False))
                     one["by_rule"][rn] = [o["kind"], bool(o.get("value")) if o["kind"] == "ok" else False, o.get("mark", 0)]
                     if o["kind"] in ("timeout", "memory"):
                         one["kind"] = o["kind"]
